@@ -61,15 +61,13 @@ def extra_c14(tier, seed, workdir, sh, GH, GM):
 
 def extra_c17(tier, seed, workdir, sh, GH, GM):
     """Pointer-level half of C17 (explored, not proved): the reduced sorter / reader scenarios of
-    miri/ under Miri. Thorough tier only (needs the Miri sysroot, ~1 min cold)."""
-    if tier != "thorough":
-        return []
+    miri/ under Miri (both tiers: ~10 s warm, ~1 min when the Miri sysroot must be built)."""
     root = os.path.dirname(os.path.abspath(__file__))
     mdir = os.path.join(root, "miri")
     if not os.path.exists(os.path.join(mdir, "Cargo.lock")):
         import shutil
         shutil.copy("/repo/Cargo.lock", os.path.join(mdir, "Cargo.lock"))
-    rc, out = sh(["cargo", "+nightly", "miri", "run"], cwd=mdir, timeout=3000)
+    rc, out = sh(["cargo", "+nightly", "miri", "run"], cwd=mdir, timeout=1500)
     ok = rc == 0 and "miri-scenarios-ok" in out
     findings = []
     if not ok:
@@ -85,7 +83,7 @@ def extra_c17(tier, seed, workdir, sh, GH, GM):
 PROPS["C14"] = dict(
     module="Grenad.Props.C14",
     extra=extra_c14,
-    streams={"varint": (96, 960)},
+    streams={"varint": (96, 2880)},
     rules={},
     exhaustive_in="thorough",
     assumptions=["u32 arithmetic of varint.rs is modelled on Nat with explicit % and / (checked against the real functions)"],
@@ -93,40 +91,40 @@ PROPS["C14"] = dict(
 
 PROPS["C13"] = dict(
     module="Grenad.Props.C13",
-    streams={"open": (256, 2560), "trunc": (64, 640)},
+    streams={"open": (256, 7680), "trunc": (64, 960), "truncall": (0, 480)},
     rules={"ops": ["open"]},
     assumptions=["the source is an in-memory Cursor (seek before the start fails, reads are exact)"],
 )
 
 PROPS["C01"] = dict(
     module="Grenad.Props.C01",
-    streams={"write": (640, 6400)},
+    streams={"write": (640, 19200)},
     rules={"ops": ["ins", "finish", "file", "c", "interop"], "finish_must_succeed": True, "blocks": True},
 )
 
 PROPS["C03"] = dict(
     module="Grenad.Props.C03",
-    streams={"cursor": (960, 9600), "exh": (2, 24)},
+    streams={"cursor": (960, 28800), "exh": (2, 72)},
     rules={"ops": ["c", "file"], "fingerprint": True},
 )
 
-PROPS["C02"] = dict(module="Grenad.Props.C02", streams={"seek": (640, 6400)}, rules={"ops": ["c", "file"]})
-PROPS["C04"] = dict(module="Grenad.Props.C04", streams={"iter": (640, 6400)}, rules={"ops": ["range", "file"]})
-PROPS["C05"] = dict(module="Grenad.Props.C05", streams={"iter": (640, 6400)}, rules={"ops": ["prefix", "file"]})
-PROPS["C06"] = dict(module="Grenad.Props.C06", streams={"merge": (1280, 12800)}, rules={"ops": ["merge", "mergew"], "calls": True})
-PROPS["C07"] = dict(module="Grenad.Props.C07", streams={"sorter": (960, 9600)}, rules={"ops": ["sfinish", "sins", "snew"], "calls": True})
-PROPS["C08"] = dict(module="Grenad.Props.C08", streams={"sorter": (960, 9600)}, rules={"ops": ["sins", "snew"], "sorter_bounds": True})
-PROPS["C09"] = dict(module="Grenad.Props.C09", streams={"write": (640, 6400)}, rules={"ops": ["finish", "interop", "file"], "blocks": True, "finish_must_succeed": True})
-PROPS["C10"] = dict(module="Grenad.Props.C10", streams={"v1": (480, 4800)}, rules={"ops": ["file", "c", "range", "prefix"]})
-PROPS["C11"] = dict(module="Grenad.Props.C11", streams={"wio": (640, 6400), "rio": (480, 4800), "sorterio": (480, 4800)},
+PROPS["C02"] = dict(module="Grenad.Props.C02", streams={"seek": (640, 19200)}, rules={"ops": ["c", "file"]})
+PROPS["C04"] = dict(module="Grenad.Props.C04", streams={"iter": (640, 19200)}, rules={"ops": ["range", "file"]})
+PROPS["C05"] = dict(module="Grenad.Props.C05", streams={"iter": (640, 19200)}, rules={"ops": ["prefix", "file"]})
+PROPS["C06"] = dict(module="Grenad.Props.C06", streams={"merge": (1280, 38400)}, rules={"ops": ["merge", "mergew"], "calls": True})
+PROPS["C07"] = dict(module="Grenad.Props.C07", streams={"sorter": (960, 28800)}, rules={"ops": ["sfinish", "sins", "snew"], "calls": True})
+PROPS["C08"] = dict(module="Grenad.Props.C08", streams={"sorter": (960, 28800)}, rules={"ops": ["sins", "snew"], "sorter_bounds": True})
+PROPS["C09"] = dict(module="Grenad.Props.C09", streams={"write": (640, 19200)}, rules={"ops": ["finish", "interop", "file"], "blocks": True, "finish_must_succeed": True})
+PROPS["C10"] = dict(module="Grenad.Props.C10", streams={"v1": (480, 14400)}, rules={"ops": ["file", "c", "range", "prefix"]})
+PROPS["C11"] = dict(module="Grenad.Props.C11", streams={"wio": (640, 19200), "rio": (480, 14400), "sorterio": (480, 14400)},
                     rules={"ops": ["ins", "finish", "sinkstate", "c", "range", "prefix", "file", "sfinish", "sins", "snew"]})
-PROPS["C12"] = dict(module="Grenad.Props.C12", streams={"fault": (64, 640)},
+PROPS["C12"] = dict(module="Grenad.Props.C12", streams={"fault": (64, 1920)},
                     rules={"ops": ["ins", "finish", "sinkstate", "c", "merge", "mergew", "sins", "!sins", "sfinish", "!sfinish", "snew"]})
-PROPS["C15"] = dict(module="Grenad.Props.C15", streams={"write": (640, 6400), "unsorted": (320, 3200)}, rules={"ops": ["finish", "ins"], "blocks": True})
-PROPS["C16"] = dict(module="Grenad.Props.C16", streams={"cursor": (640, 6400), "seek": (320, 3200), "open": (128, 1280), "big": (4, 48)},
+PROPS["C15"] = dict(module="Grenad.Props.C15", streams={"write": (640, 19200), "unsorted": (320, 9600)}, rules={"ops": ["finish", "ins"], "blocks": True})
+PROPS["C16"] = dict(module="Grenad.Props.C16", streams={"cursor": (640, 19200), "seek": (320, 9600), "open": (128, 3840), "big": (4, 144)},
                     rules={"ops": ["c", "open", "file"], "loads": True, "fingerprint": False})
-PROPS["C17"] = dict(extra=extra_c17, module="Grenad.Props.C17", streams={"sorter": (960, 9600)}, rules={"ops": ["sins", "snew", "sfinish"], "alloc": True})
-PROPS["C18"] = dict(module="Grenad.Props.C18", streams={"unsorted": (960, 9600)}, rules={"ops": ["ins", "finish"], "blocks": True})
+PROPS["C17"] = dict(extra=extra_c17, module="Grenad.Props.C17", streams={"sorter": (960, 28800)}, rules={"ops": ["sins", "snew", "sfinish"], "alloc": True})
+PROPS["C18"] = dict(module="Grenad.Props.C18", streams={"unsorted": (960, 28800)}, rules={"ops": ["ins", "finish"], "blocks": True})
 
 
 # ---------------------------------------------------------------- texts for MANIFEST.json
